@@ -699,4 +699,312 @@ theorem fetchKid_spec (kp : Nat → Bool) (n : Node) (j : Nat) : ∀ (ss : List 
                    · right; simp at hi; omega), a5 i]
       simp [hne]
 
+
+/-! ## well-formed, closed definitions -/
+
+/-- number of outputs of child `j` -/
+def noutsOf (body : List Node) (j : Nat) : Nat :=
+  match body[j]? with
+  | some n => n.nout
+  | none => 0
+
+/-- the keyword argument of input `i` of child `j` refers to something that exists and holds data:
+a parameter, an output of an EARLIER child, a value that is data, or a class default that is data -/
+def SrcWF (na : Nat) (nouts : Nat → Nat) (j : Nat) (n : Node) (i : Nat) : Src → Prop
+  | .arg k => k < na
+  | .out j' o => j' < j ∧ o < nouts j'
+  | .const v => v ≠ .nd
+  | .none => n.dflt i ≠ .nd
+
+def RetWF (na : Nat) (body : List Node) : Ret → Prop
+  | .arg k => k < na
+  | .out j o => j < body.length ∧ o < noutsOf body j
+
+mutual
+def WF : Node → Prop
+  | .leaf _ _ => True
+  | .mac args body rets _ _ =>
+    WFBody args.length (noutsOf body) body 0 ∧ (∀ x, x ∈ rets → RetWF args.length body x)
+def WFBody (na : Nat) (nouts : Nat → Nat) : List Node → Nat → Prop
+  | [], _ => True
+  | n :: ns, j =>
+    WF n ∧ n.srcs.length = n.arity ∧ nouts j = n.nout ∧
+      (∀ i s, n.srcs[i]? = some s → SrcWF na nouts j n i s) ∧ WFBody na nouts ns (j + 1)
+end
+
+mutual
+/-- no creator (at any depth) returns the same channel twice -/
+def NoDupH : Node → Prop
+  | .leaf _ _ => True
+  | .mac _ body rets _ _ => rets.Nodup ∧ NoDupHB body
+def NoDupHB : List Node → Prop
+  | [] => True
+  | n :: ns => NoDupH n ∧ NoDupHB ns
+end
+
+theorem isNd_false_of_ne {v : Val} (h : v ≠ .nd) : v.isNd = false := by
+  cases v <;> simp [Val.isNd] at h ⊢
+
+theorem ne_nd_of_isNd_false {v : Val} (h : v.isNd = false) : v ≠ .nd := by
+  intro e; subst e; simp [Val.isNd] at h
+
+theorem anyNd_false (f : Nat → Val) (n : Nat) (h : ∀ k, k < n → f k ≠ .nd) : anyNd f n = false := by
+  simp only [anyNd, List.any_eq_false, List.mem_range]
+  intro k hk
+  simp [isNd_false_of_ne (h k hk)]
+
+theorem memo_lt (n : Nat) (f : Nat → Val) (o : Nat) (h : o < n) : memo n f o = f o := by
+  simp [memo, List.getD, h]
+
+theorem nodup_not_mem_drop {α} [DecidableEq α] (l : List α) (hn : l.Nodup) (r : Nat) (x : α)
+    (hr : l[r]? = some x) : x ∉ l.drop (r + 1) := by
+  induction l generalizing r with
+  | nil => simp at hr
+  | cons y ys ih =>
+    rw [List.nodup_cons] at hn
+    cases r with
+    | zero =>
+      simp at hr; subst hr
+      simpa using hn.1
+    | succ r => simpa using ih hn.2 r (by simpa using hr)
+
+/-! ## `run` computes the plain composition and re-establishes synchronisation -/
+
+mutual
+theorem run_value : ∀ (n : Node) (σ : St) (a : Nat → Val), WF n → NoDupH n → Inv true n σ →
+    (∀ i, i < n.arity → σ.get .inp i = a i) → (∀ i, i < n.arity → a i ≠ .nd) →
+    ∃ σ', run n σ = some σ' ∧ (∀ p k, p ≠ .out → p ≠ .uiOut → σ'.get p k = σ.get p k) ∧
+      Inv true n σ' ∧ OutSync n σ' ∧
+      ∀ o, o < n.nout → σ'.get .out o = denote n a o ∧ denote n a o ≠ .nd
+  | .leaf f srcs, σ, a, _, _, _, hin, hdata => by
+    simp only [Node.arity] at hin hdata
+    have hnd : anyNd (σ.get .inp) srcs.length = false :=
+      anyNd_false _ _ (fun k hk => by rw [hin k hk]; exact hdata k hk)
+    refine ⟨_, by simp [run, hnd], ?_, by simp [Inv], by simp [OutSync], ?_⟩
+    · intro p k hp _; simp [hp]
+    · intro o ho
+      simp only [Node.nout] at ho
+      have : o = 0 := by omega
+      subst this
+      simp only [St.get_set, denote, and_self, if_true]
+      refine ⟨?_, by simp⟩
+      congr 1
+      apply List.map_congr_left
+      intro i hi
+      exact hin i (List.mem_range.mp hi)
+  | .mac args body rets oh s, σ, a, hwf, hnodup, hinv, hin, hdata => by
+    simp only [Node.arity] at hin hdata
+    simp only [WF] at hwf
+    simp only [NoDupH] at hnodup
+    simp only [Inv] at hinv
+    obtain ⟨hui, hbody⟩ := hinv
+    have hnd : anyNd (σ.get .inp) args.length = false :=
+      anyNd_false _ _ (fun k hk => by rw [hin k hk]; exact hdata k hk)
+    have hnd2 : (List.range args.length).any (fun k => kept body rets k && (σ.get .uiIn k).isNd) = false := by
+      simp only [List.any_eq_false, List.mem_range, Bool.and_eq_true, not_and, Bool.not_eq_true]
+      intro k hk hkept
+      rw [hui k hk hkept, hin k hk]
+      exact isNd_false_of_ne (hdata k hk)
+    -- the UI nodes run
+    have hu_get := runUI_get (kept body rets) args.length 0 σ
+    have hu_sub := runUI_sub (kept body rets) args.length 0 σ
+    have hbody_u : InvBody true (kept body rets) ((runUI (kept body rets) args.length 0 σ).get .inp) body 0
+        (runUI (kept body rets) args.length 0 σ) := by
+      apply invBody_mono true _ _ _ body 0 σ _ hbody
+      · intro jj _; exact hu_sub jj
+      · intro _ _ _ k' _ _ _; rw [hu_get]; simp
+    obtain ⟨σb, hrb, hroot, _, hinvb, hosb, hvals⟩ :=
+      runBody_value (kept body rets) args.length (noutsOf body) a body 0
+        (runUI (kept body rets) args.length 0 σ) (fun _ _ => .nd) hwf.1 hnodup.2 hbody_u
+        (by intro k hk; rw [hu_get]; simp [hin k hk])
+        hdata
+        (by
+          intro k hk hkept
+          rw [hu_get]
+          simp only [true_and, Nat.zero_le, Nat.zero_add, hk, hkept, and_self, if_true]
+          rw [hui k hk hkept, hin k hk])
+        (by intro jj o hj; omega)
+    refine ⟨pushOuts rets 0 σb, by simp [run, hnd, hnd2, hrb], ?_, ?_, ?_, ?_⟩
+    · intro p k hp hp'
+      rw [pushOuts_get_other _ _ _ _ _ hp, hroot, hu_get]
+      simp [hp']
+    · simp only [Inv]
+      constructor
+      · intro k hk hkept
+        rw [pushOuts_get_other _ _ _ _ _ (by simp), pushOuts_get_other _ _ _ _ _ (by simp), hroot, hroot,
+          hu_get, hu_get]
+        simpa using hui k hk hkept
+      · apply invBody_mono true _ _ _ body 0 σb _ hinvb
+        · intro jj _; exact pushOuts_sub rets 0 σb jj
+        · intro _ _ _ k' _ _ _
+          rw [pushOuts_get_other _ _ _ _ _ (by simp), hroot]
+    · simp only [OutSync]
+      constructor
+      · intro r x hr hx
+        have := pushOuts_get_out rets 0 σb r x hr hx
+        rw [Nat.zero_add] at this
+        rw [this, pushOuts_retVal]
+      · exact outSyncBody_frame body 0 σb _ (fun jj _ => pushOuts_sub rets 0 σb jj) hosb
+    · intro o ho
+      simp only [Node.nout] at ho
+      have hx : rets[o]? = some rets[o] := by simp [ho]
+      have hnot := nodup_not_mem_drop rets hnodup.1 o _ hx
+      have hpo := pushOuts_get_out rets 0 σb o _ hx hnot
+      rw [Nat.zero_add] at hpo
+      rw [hpo]
+      have hrw := hwf.2 _ (List.getElem_mem ho)
+      simp only [denote, hx]
+      cases hxx : rets[o] with
+      | arg k =>
+        rw [hxx] at hrw
+        simp only [RetWF] at hrw
+        have hkept : kept body rets k = true := fwd_kept (by rw [← hxx]; exact List.getElem_mem ho)
+        simp only [retVal]
+        rw [hroot, hu_get]
+        simp only [true_and, Nat.zero_le, Nat.zero_add, hrw, hkept, and_self, if_true]
+        rw [hui k hrw hkept, hin k hrw]
+        exact ⟨rfl, hdata k hrw⟩
+      | out j oo =>
+        rw [hxx] at hrw
+        simp only [RetWF] at hrw
+        simp only [retVal]
+        exact hvals j oo (by omega) hrw.2
+theorem runBody_value (kp : Nat → Bool) (na : Nat) (nouts : Nat → Nat) (a : Nat → Val) :
+    ∀ (ns : List Node) (j : Nat) (σ : St) (acc : Nat → Nat → Val),
+    WFBody na nouts ns j → NoDupHB ns →
+    InvBody true kp (σ.get .inp) ns j σ →
+    (∀ k, k < na → σ.get .inp k = a k) →
+    (∀ k, k < na → a k ≠ .nd) →
+    (∀ k, k < na → kp k = true → σ.get .uiOut k = a k) →
+    (∀ jj o, jj < j → o < nouts jj → (σ.sub jj).get .out o = acc jj o ∧ acc jj o ≠ .nd) →
+    ∃ σb, runBody kp ns j σ = some σb ∧
+      (∀ p k, σb.get p k = σ.get p k) ∧
+      (∀ jj, jj < j → σb.sub jj = σ.sub jj) ∧
+      InvBody true kp (σ.get .inp) ns j σb ∧ OutSyncBody ns j σb ∧
+      (∀ jj o, jj < j + ns.length → o < nouts jj →
+        (σb.sub jj).get .out o = denoteBody ns j a acc jj o ∧ denoteBody ns j a acc jj o ≠ .nd)
+  | [], j, σ, acc, _, _, _, _, _, _, hacc => by
+    refine ⟨σ, by simp [runBody], fun _ _ => rfl, fun _ _ => rfl, by simp [InvBody], by simp [OutSyncBody], ?_⟩
+    intro jj o hj ho
+    simp only [denoteBody]
+    exact hacc jj o (by simpa using hj) ho
+  | n :: ns, j, σ, acc, hwf, hnodup, hinv, hin, hdata, hui, hacc => by
+    simp only [WFBody] at hwf
+    obtain ⟨hwfn, harity, hnout, hsrcs, hwfns⟩ := hwf
+    simp only [NoDupHB] at hnodup
+    simp only [InvBody] at hinv
+    obtain ⟨hinvn, hsok, hinvns⟩ := hinv
+    obtain ⟨b1, b2, b3, b4, b5, b6⟩ := fetchKid_spec kp n j n.srcs 0 σ
+    -- after fetching, every input of the child holds what the keyword argument stands for
+    have hres : ∀ i, i < n.arity → ((fetchKid kp n j n.srcs 0 σ).sub j).get .inp i = resolve n a acc i ∧
+        resolve n a acc i ≠ .nd := by
+      intro i hi
+      rw [← harity] at hi
+      have hs : n.srcs[i]? = some n.srcs[i] := by simp [hi]
+      rw [b5 i _ (Nat.zero_le _) (by simpa using hs)]
+      have hw := hsrcs i _ hs
+      have hok := hsok i _ hs
+      unfold resolve fetched
+      rw [hs]
+      cases hsi : n.srcs[i] with
+      | arg k =>
+        rw [hsi] at hw hok
+        simp only [SrcWF] at hw
+        simp only [SrcOk] at hok
+        simp only [srcVal]
+        by_cases hk : kp k = true
+        · simp only [hk, if_true]
+          rw [hui k hw hk, isNd_false_of_ne (hdata k hw)]
+          exact ⟨by simp, hdata k hw⟩
+        · simp only [hk, Bool.false_eq_true, if_false]
+          rw [hok (by simpa using hk), hin k hw]
+          exact ⟨rfl, hdata k hw⟩
+      | out j' o =>
+        rw [hsi] at hw
+        simp only [SrcWF] at hw
+        simp only [srcVal]
+        obtain ⟨e1, e2⟩ := hacc j' o hw.1 hw.2
+        rw [e1, isNd_false_of_ne e2]
+        exact ⟨by simp, e2⟩
+      | const v =>
+        rw [hsi] at hw hok
+        simp only [SrcWF] at hw
+        simp only [SrcOk] at hok
+        simp only [srcVal]
+        exact ⟨hok rfl, hw⟩
+      | none =>
+        rw [hsi] at hw hok
+        simp only [SrcWF] at hw
+        simp only [SrcOk] at hok
+        simp only [srcVal]
+        exact ⟨hok rfl, hw⟩
+    obtain ⟨τ, hrun, hτroot, hτinv, hτos, hτvals⟩ :=
+      run_value n ((fetchKid kp n j n.srcs 0 σ).sub j) (resolve n a acc) hwfn hnodup.1 (b4 true hinvn)
+        (fun i hi => (hres i hi).1) (fun i hi => (hres i hi).2)
+    -- the rest of the body
+    have hsub2 : ∀ jj, jj ≠ j → (St.graft (fetchKid kp n j n.srcs 0 σ) j τ).sub jj = σ.sub jj := by
+      intro jj hjj
+      rw [St.sub_graft_other _ _ _ _ hjj, b2 jj hjj]
+    have hroot2 : ∀ p k, (St.graft (fetchKid kp n j n.srcs 0 σ) j τ).get p k = σ.get p k := by
+      intro p k; rw [St.get_graft, b1]
+    obtain ⟨σb, hrb, hrootb, hframeb, hinvb, hosb, hvalsb⟩ :=
+      runBody_value kp na nouts a ns (j + 1) (St.graft (fetchKid kp n j n.srcs 0 σ) j τ)
+        (fun j' => if j' = j then memo n.nout (denote n (resolve n a acc)) else acc j')
+        hwfns hnodup.2
+        (by
+          apply invBody_mono true _ _ _ ns (j + 1) σ _ hinvns
+          · intro jj hjj; exact hsub2 jj (by omega)
+          · intro _ _ _ k' _ _ _; rw [hroot2])
+        (by intro k hk; rw [hroot2]; exact hin k hk)
+        hdata
+        (by intro k hk hkp; rw [hroot2]; exact hui k hk hkp)
+        (by
+          intro jj o hjj ho
+          by_cases he : jj = j
+          · subst he
+            rw [St.sub_graft_same]
+            simp only [if_true]
+            rw [hnout] at ho
+            rw [memo_lt _ _ _ ho]
+            exact hτvals o ho
+          · rw [hsub2 jj he]
+            simp only [he, if_false]
+            exact hacc jj o (by omega) ho)
+    have hσbj : σb.sub j = τ := by rw [hframeb j (by omega), St.sub_graft_same]
+    refine ⟨σb, by simp only [runBody, hrun, hrb], ?_, ?_, ?_, ?_, ?_⟩
+    · intro p k; rw [hrootb, hroot2]
+    · intro jj hjj; rw [hframeb jj (by omega), hsub2 jj (by omega)]
+    · simp only [InvBody]
+      refine ⟨by rw [hσbj]; exact hτinv, ?_, ?_⟩
+      · intro i s hs
+        rw [hσbj]
+        have hold := hsok i s hs
+        have hfetch := b5 i s (Nat.zero_le _) (by simpa using hs)
+        cases s with
+        | arg k =>
+          simp only [SrcOk] at hold ⊢
+          intro hk
+          rw [hτroot .inp i (by simp) (by simp), hfetch]
+          simp [fetched, srcVal, hk, hold hk]
+        | out a b => trivial
+        | const v =>
+          simp only [SrcOk] at hold ⊢
+          intro hh
+          rw [hτroot .inp i (by simp) (by simp), hfetch]
+          simp [fetched, srcVal, hold hh]
+        | none =>
+          simp only [SrcOk] at hold ⊢
+          intro hh
+          rw [hτroot .inp i (by simp) (by simp), hfetch]
+          simp [fetched, srcVal, hold hh]
+      · apply invBody_mono true _ _ _ ns (j + 1) σb _ hinvb
+        · intro _ _; rfl
+        · intro _ _ _ k' _ _ _; rw [hroot2]
+    · simp only [OutSyncBody]
+      exact ⟨by rw [hσbj]; exact hτos, hosb⟩
+    · intro jj o hjj ho
+      simp only [denoteBody]
+      exact hvalsb jj o (by simp at hjj; omega) ho
+end
+
 end PwVerif.Macro
